@@ -28,6 +28,7 @@ type provProfile struct {
 	wInfr                                                                  int  // infraction-parameter updates of launched consumers
 	wReward                                                                int  // ICS reward transfers, denom registration, tax
 	wEvid                                                                  int  // equivocation evidence (signed duplicate votes)
+	wRelay                                                                 int  // two-chain: relay packets to the attached consumer / consumer blocks
 	rewEpochs                                                              int
 	keyPool                                                                int  // number of extra consumer keys (default 10)
 	nvExtra                                                                int  // validator ids that may be created later
@@ -206,7 +207,7 @@ func (p *provRunner) genOne(r *Rng, prof provProfile) string {
 		p.script = p.script[1:]
 		return s
 	}
-	ws := []int{prof.wCreate, prof.wUpdate, prof.wRemove, prof.wOpt, prof.wAssign, prof.wStake, prof.wBlock, prof.wChan, prof.wSlash, prof.wMisc, prof.wParams, prof.wVal, prof.wInfr, prof.wReward, prof.wEvid}
+	ws := []int{prof.wCreate, prof.wUpdate, prof.wRemove, prof.wOpt, prof.wAssign, prof.wStake, prof.wBlock, prof.wChan, prof.wSlash, prof.wMisc, prof.wParams, prof.wVal, prof.wInfr, prof.wReward, prof.wEvid, prof.wRelay}
 	switch pickWeighted(r, ws) {
 	case 0: // create
 		if prof.conns > 0 && r.chance(45) {
@@ -415,6 +416,12 @@ func (p *provRunner) genOne(r *Rng, prof provProfile) string {
 		c := p.pickConsumer(r)
 		v := r.intn(prof.nv)
 		return fmt.Sprintf("commission v=%d c=%s rate=%s signer=%d", v, c, []string{"0.050000000000000000", "0.100000000000000000", "0.010000000000000000", "1.000000000000000000"}[r.intn(4)], v)
+	case 15:
+		// relay none / one / several packets, or end a consumer block (also with nothing received)
+		if r.chance(45) {
+			return "cblock"
+		}
+		return fmt.Sprintf("relay n=%d", []int{1, 1, 2, 3, 10}[r.intn(5)])
 	case 14:
 		if r.chance(25) {
 			return p.genMisb(r, prof)
